@@ -1,4 +1,4 @@
-import TarsModel.Proofs.ServerConnKick
+import TarsModel.Proofs.ServerConnLeak
 
 /-!
 # C12 — Graceful shutdown answers every request already received
@@ -24,7 +24,7 @@ reported all connections closed, `false`: because its context expired).
 namespace Tars.ServerConn
 
 /-- the steps of the handler of request `i` of connection `c` -/
-def handlerActions (c i : Nat) : List Action := [.start c i, .fin c i, .write c i, .dec c i]
+def handlerActions (c i : Nat) : List Action := [.start c i, .fin c i, .write c i, .skip c i, .dec c i]
 
 /-- a connection whose goroutine exists and has not finished: `Accept` returned it, its deferred close
 has not run -/
@@ -86,8 +86,10 @@ theorem C12_answered_before_close (cfg : Cfg) (hci : cfg.ci = .kickOnly) (acts :
 
 /-- **Executed, without a pool**: for every variant and every interleaving, the handler of a request
 that `handleConn` has counted always has its next step enabled (goroutine per request: nothing can
-block it), so under a fair scheduler it runs to its end. -/
-theorem C12_handler_enabled (cfg : Cfg) (hpool : cfg.pool = none) (acts : List Action) (s : State)
+block it), so under a fair scheduler it runs to its end — also on the early return for one-way requests and empty
+responses, provided the decrement of `numInvoke` is deferred. -/
+theorem C12_handler_enabled (cfg : Cfg) (hpool : cfg.pool = none) (hdec : cfg.decDeferred = true)
+    (acts : List Action) (s : State)
     (hrun : run cfg acts = some s) (c i : Nat) (k : Conn) (q : Req) (hk : s.conns[c]? = some k)
     (hq : k.reqs[i]? = some q) (hnd : q.st.isDone = false) :
     ∃ a ∈ handlerActions c i, (step cfg s a).isSome = true := by
@@ -100,10 +102,17 @@ theorem C12_handler_enabled (cfg : Cfg) (hpool : cfg.pool = none) (acts : List A
   | running =>
     exact ⟨.fin c i, by simp [handlerActions], by simp [step, updConn, hk, cFin, cSetSt, hq, hst]⟩
   | finished =>
-    exact ⟨.write c i, by simp [handlerActions], by simp [step, updConn, hk, cWrite, cSetSt, hq, hst]⟩
+    cases hnr : q.noReply with
+    | false =>
+      exact ⟨.write c i, by simp [handlerActions], by simp [step, updConn, hk, cWrite, cSetSt, hq, hst, hnr]⟩
+    | true =>
+      exact ⟨.skip c i, by simp [handlerActions], by simp [step, updConn, hk, cSkip, cSetSt, hq, hst, hnr]⟩
   | wrote ok =>
     exact ⟨.dec c i, by simp [handlerActions], by simp [step, updConn, hk, cDec, hq, hst]⟩
   | done ok => simp [hst, HSt.isDone] at hnd
+  | leaked =>
+    exfalso
+    exact deferred_never_leaked cfg hdec (run_reachable hrun) c k hk q (mem_of_getElem? hq) hst
 
 /-- **Executed, with a pool**: when `Handle` waits for all connection goroutines before
 `pool.Release()`, then for any pool size, any queue capacity, any behaviour of `CloseIdles` and every
@@ -137,15 +146,18 @@ theorem C12_repaired_safety (pool : Option (Nat × Nat)) : C12_safety (repaired 
   intro acts s hrun
   refine ⟨fun c k hk hcl => C12_answered_before_close _ rfl acts s hrun c k hk hcl, ?_⟩
   intro c i k q hk hq hnd
-  exact ⟨fun hp => C12_handler_enabled _ hp acts s hrun c i k q hk hq hnd,
+  exact ⟨fun hp => C12_handler_enabled _ hp rfl acts s hrun c i k q hk hq hnd,
          fun _ => C12_fixed_pool _ rfl acts s hrun c i k q hk hq hnd⟩
 
 /-- **The current tree is the repaired variant.** The extractor regenerates
-`Consts.srvHandleWaitsBeforeRelease` (calls of `Wait()` in `tcpHandler.Handle`) and
-`Consts.srvCloseIdlesCloses` (calls of `conn.conn.Close()` in `tcpHandler.CloseIdles`) from the
-source on every run; if either repair is reverted this theorem no longer builds. -/
+`Consts.srvHandleWaitsBeforeRelease` (calls of `Wait()` in `tcpHandler.Handle`),
+`Consts.srvCloseIdlesCloses` (calls of `conn.conn.Close()` in `tcpHandler.CloseIdles`) and
+`Consts.srvInvokeDecDeferred` (`defer atomic.AddInt32(&connSt.numInvoke, -1)` in the handler closure
+of `tcpHandler.handleConn`) from the source on every run; if either repair is reverted, or the
+decrement is no longer deferred, this theorem no longer builds. -/
 theorem C12_current_tree (pool : Option (Nat × Nat)) : treeCfg pool = repaired pool := by
-  simp [treeCfg, repaired, Consts.srvHandleWaitsBeforeRelease, Consts.srvCloseIdlesCloses]
+  simp [treeCfg, repaired, Consts.srvHandleWaitsBeforeRelease, Consts.srvCloseIdlesCloses,
+    Consts.srvInvokeDecDeferred]
 
 /-- hence the safety part of C12 holds for the model variant of the current tree -/
 theorem C12_current_tree_safety (pool : Option (Nat × Nat)) : C12_safety (treeCfg pool) := by
@@ -165,6 +177,129 @@ example : ∃ s, run (repaired none)
     (s.conns.map fun k => (k.srvClosed, k.reqs.map (·.st), k.got, k.gotMsg, k.sawEof)) =
       [(true, [.done true], [7], true, true)] := by
   refine ⟨_, rfl, ?_, ?_⟩ <;> decide
+
+/-! ## `numInvoke` accounting on the handler's early return (one-way requests, empty responses) -/
+
+/-- the handler of the request is over (it will touch neither the connection nor `numInvoke` again) -/
+def HSt.returned : HSt → Bool
+  | .done _ | .leaked => true
+  | _ => false
+
+/-- **Drained connections can be closed**: with the deferred decrement, for every interleaving,
+`numInvoke` of a connection is exactly the number of its requests whose handler has not returned —
+whatever path the handler took (response written, write failed, one-way request, empty response).
+So once the receive loop has returned and every handler of the connection has returned, the deferred
+drain-then-close is enabled: the server closes the connection. -/
+theorem C12_drain_enabled (cfg : Cfg) (hdec : cfg.decDeferred = true) (acts : List Action) (s : State)
+    (hrun : run cfg acts = some s) (c : Nat) (k : Conn) (hk : s.conns[c]? = some k) :
+    k.numInvoke = k.reqs.countP (fun q => !q.st.returned) ∧
+    (k.rpc = .draining → (∀ q ∈ k.reqs, q.st.returned = true) → (step cfg s (.drainClose c)).isSome = true) := by
+  have hr := run_reachable hrun
+  have hki := (ginv_reachable hr).conns c k hk
+  have hnl := noleak_reachable hdec hr c k hk
+  have hcount : k.numInvoke = k.reqs.countP (fun q => !q.st.returned) := by
+    rw [hki.count]
+    apply List.countP_congr
+    intro q hq
+    have := hnl q hq
+    cases hst : q.st <;> simp_all [notDone, HSt.isDone, HSt.returned]
+  refine ⟨hcount, ?_⟩
+  intro hpc hall
+  have hz : k.numInvoke = 0 := by
+    rw [hcount, List.countP_eq_zero]
+    intro q hq; simp [hall q hq]
+  simp [step, updConn, hk, cDrainClose, hpc, hz]
+
+/-- the current code with the decrement as the handler's last statement instead of a `defer` -/
+def leakCfg (pool : Option (Nat × Nat)) : Cfg := { repaired pool with decDeferred := false }
+
+/-- One connection, one one-way request (or one whose response is empty): it is read, counted,
+executed; the handler takes the early return. Then `Shutdown`: the close message is sent, the receive
+loop is woken and returns. -/
+def leakSchedule : List Action :=
+  [.connect, .accept 0, .register 0, .stamp 0, .sendNR 0 5, .read 0 1, .dispatch 0, .start 0 0, .fin 0 0,
+   .skip 0 0, .stamp 0, .shutdownCall, .setClosed, .acceptExit, .onShutdownRet, .ciBegin, .ciVisit 0,
+   .ciEnd, .readErr 0 false, .recvMsg 0]
+
+/-- **The leak.** If the handler's `numInvoke--` is not deferred, `leakSchedule` is a run after which
+nothing is in flight (the only handler has returned), the client has the close message and the receive
+loop has returned — yet `numInvoke = 1`, and in EVERY continuation the server never closes the
+connection and `Shutdown` never returns through `CloseIdles` (only its context's expiry ends it). -/
+theorem C12_oneway_leak_counterexample :
+    ∃ s, run (leakCfg none) leakSchedule = some s ∧
+      (s.conns.map fun k => (k.rpc, k.numInvoke, k.reqs.map (·.st), k.gotMsg, k.srvClosed)) =
+        [(.draining, 1, [.leaked], true, false)] ∧
+      (∀ (acts : List Action) (s' : State), runFrom (leakCfg none) s acts = some s' →
+        (∃ k, s'.conns[0]? = some k ∧ k.srvClosed = false ∧ 0 < k.numInvoke) ∧ s'.spc ≠ .returned true) ∧
+      (∃ s', runFrom (leakCfg none) s [.ciBegin, .ciVisit 0, .ciEnd, .ctxExpire] = some s' ∧
+        s'.spc = .returned false) := by
+  have hrun : ∃ s, run (leakCfg none) leakSchedule = some s := ⟨_, rfl⟩
+  obtain ⟨s, hs⟩ := hrun
+  have e := hs
+  simp only [run, leakSchedule, leakCfg, repaired] at e
+  have hse : s = _ := (Option.some.inj e).symm
+  have hl : Leaked s 0 0 := by
+    subst hse
+    refine ⟨⟨_, _, rfl, rfl, by decide, by decide, by decide⟩, ?_, by decide⟩
+    intro p hp; simp at hp
+  refine ⟨s, hs, ?_, ?_, ?_⟩
+  · subst hse; decide
+  · intro acts s' hrun'
+    have hr : Reachable (leakCfg none) s := run_reachable hs
+    have hl' := leaked_run hr hl hrun'
+    obtain ⟨k, q, hk, hq, hqs, hcl, _⟩ := hl'.there
+    have hki := (ginv_reachable (runFrom_reachable hr hrun')).conns 0 k hk
+    exact ⟨⟨k, hk, hcl, numInvoke_pos_of_leaked hki hq hqs⟩, hl'.notRet⟩
+  · subst hse
+    exact ⟨_, rfl, by decide⟩
+
+/-- with a worker pool the same leak also keeps the accept loop from ever releasing the pool: in every
+continuation the connection's goroutine has not finished, so `Handle`'s wait before `Release()` never
+ends (`relCall` is not enabled) -/
+theorem C12_oneway_leak_pool_counterexample :
+    ∃ s, run (leakCfg (some (1, 8)))
+        [.connect, .accept 0, .register 0, .stamp 0, .sendNR 0 5, .read 0 1, .dispatch 0, .enqueue 0, .pTake,
+         .pGive, .start 0 0, .fin 0 0, .skip 0 0, .stamp 0, .shutdownCall, .setClosed, .acceptExit,
+         .onShutdownRet, .ciBegin, .ciVisit 0, .ciEnd, .readErr 0 false, .recvMsg 0] = some s ∧
+      s.apc = .afterLoop ∧ busy s = 0 ∧ s.jobQ = [] ∧
+      (∀ (acts : List Action) (s' : State), runFrom (leakCfg (some (1, 8))) s acts = some s' →
+        step (leakCfg (some (1, 8))) s' .relCall = none ∧ s'.spc ≠ .returned true) := by
+  have hrun : ∃ s, run (leakCfg (some (1, 8)))
+        [.connect, .accept 0, .register 0, .stamp 0, .sendNR 0 5, .read 0 1, .dispatch 0, .enqueue 0, .pTake,
+         .pGive, .start 0 0, .fin 0 0, .skip 0 0, .stamp 0, .shutdownCall, .setClosed, .acceptExit,
+         .onShutdownRet, .ciBegin, .ciVisit 0, .ciEnd, .readErr 0 false, .recvMsg 0] = some s := ⟨_, rfl⟩
+  obtain ⟨s, hs⟩ := hrun
+  have e := hs
+  simp only [run, leakCfg, repaired] at e
+  have hse : s = _ := (Option.some.inj e).symm
+  have hl : Leaked s 0 0 := by
+    subst hse
+    refine ⟨⟨_, _, rfl, rfl, by decide, by decide, by decide⟩, ?_, by decide⟩
+    intro p hp; simp at hp
+  refine ⟨s, hs, ?_, ?_, ?_, ?_⟩
+  · subst hse; decide
+  · subst hse; decide
+  · subst hse; decide
+  · intro acts s' hrun'
+    have hr : Reachable (leakCfg (some (1, 8))) s := run_reachable hs
+    have hl' := leaked_run hr hl hrun'
+    refine ⟨?_, hl'.notRet⟩
+    obtain ⟨k, q, hk, hq, hqs, hcl, hreg⟩ := hl'.there
+    have hki := (ginv_reachable (runFrom_reachable hr hrun')).conns 0 k hk
+    have hst := started_of_registered hki hreg
+    have hnc : k.rpc ≠ .closed := fun hc => by
+      have := (hki.closedPc hc).1; rw [hcl] at this; contradiction
+    have hnot : allConnGoroutinesDone s' = false := by
+      unfold allConnGoroutinesDone
+      rw [Bool.eq_false_iff]
+      intro hall
+      rw [List.all_eq_true] at hall
+      have := hall k (mem_of_getElem? hk)
+      simp at this
+      rcases this with h1 | h1
+      · exact hnc h1
+      · exact hst.1 h1
+    simp [step, leakCfg, repaired, hnot]
 
 /-! ## The code as found, and what an atomic `CloseIdles` would have given -/
 
@@ -190,12 +325,13 @@ with respect to `C12_full` for that code: requests read but not yet counted
 (`C12_undispatched_counterexample`), the real non-atomic `CloseIdles` (`C12_toctou_counterexample`),
 the worker pool (`C12_pool_counterexample`). -/
 theorem C12_nopool_partial (cfg : Cfg) (hpool : cfg.pool = none) (hci : cfg.ci = .atomic)
+    (hdec : cfg.decDeferred = true)
     (acts : List Action) (s : State) (hrun : run cfg acts = some s)
     (c : Nat) (k : Conn) (hk : s.conns[c]? = some k) :
     (∀ (i : Nat) (q : Req), k.reqs[i]? = some q → q.st.isDone = false →
         ∃ a ∈ handlerActions c i, (step cfg s a).isSome = true) ∧
     (k.srvClosed = true → ∀ q ∈ k.reqs, q.dispOpen = true → q.st = .done true) :=
-  ⟨fun i q hq hnd => C12_handler_enabled cfg hpool acts s hrun c i k q hk hq hnd,
+  ⟨fun i q hq hnd => C12_handler_enabled cfg hpool hdec acts s hrun c i k q hk hq hnd,
    fun hcl => C12_safety_atomic_partial cfg (by rw [hci]; simp) acts s hrun c k hk hcl⟩
 
 /-- non-vacuity of `C12_nopool_partial`: two pipelined requests, shutdown while both handlers run, an
